@@ -227,3 +227,215 @@ Proof.
     repeat (split || constructor); try discriminate; reflexivity.
   - vm_compute. repeat split; reflexivity.
 Qed.
+
+(* ====================== debug wrappers: the full model ====================== *)
+Require Import HsDebugFull HsDebugFullProofs.
+
+(* wsutil.DebugDialer as transcribed in model/HsDebugFull.v (wrapped conn, tee buffers, net/http on the
+   captured bytes, fallback search for the end of the head, splice-back of prefetched bytes).
+   What enters from outside, universally quantified: [parse_head] = the answer of http.ReadResponse +
+   body drain on the captured bytes (Some n: ok, n bytes consumed; None: error), [hreads] = the buffer
+   sizes of the Read calls net/http's bufio.Reader makes on the tee (how far it reads ahead), [wcut] =
+   how the Dialer's bufio.Writer cuts the request into Write calls, [chunks]/[t] = how the conn
+   delivers the server's bytes and how it ends, [set_req]/[set_resp] = which callbacks are set.
+   For every dialer configuration, URL parts, nonce and buffer size B >= 1: error and Handshake are
+   those of the plain Dialer.Upgrade on the same conn, the conn receives exactly the plain dialer's
+   request, OnRequest receives exactly that request, OnResponse is called iff it is set. *)
+Theorem C11_debug_dialer_transparent :
+  forall (parse_head : list byte -> option nat) (wcut : list byte -> list (list byte)),
+  (forall x, concat (wcut x) = x) ->
+  forall cfg url_host uri nonce B, 1 <= B ->
+  forall hreads chunks t set_req set_resp,
+  let w := debug_dialer_full parse_head wcut set_req set_resp cfg url_host uri nonce B hreads chunks t in
+  let d := dialer_upgrade cfg url_host uri nonce B (mkReader [] chunks t) in
+  fd_err w = d_err d /\ fd_hs w = d_hs d
+  /\ concat (fd_conn_out w) = d_request d
+  /\ fd_on_request w = (if set_req then Some (d_request d) else None)
+  /\ (fd_on_response w = None <-> set_resp = false).
+Proof. exact debug_dialer_full_transparent. Qed.
+Print Assumptions C11_debug_dialer_transparent.
+
+(* OnResponse and the bytes behind the response.  The only hypothesis about net/http: IF the plain
+   dialer accepts the response (a 101: no body) AND net/http parsed it without error, THEN what
+   net/http consumed ends with the first empty line (LF or CR LF ended) of the bytes captured.
+   Nothing is assumed when net/http refuses, nor about how far it reads ahead.
+   (1) Success: the stream has a first empty line at offset h; OnResponse receives exactly the first
+       h bytes (the head, whatever the line ends); the returned buffer followed by the conn
+       [fd_leftover] yields exactly the bytes from offset h on — each once, in order — which is also
+       what the plain dialer leaves readable.  Covers: LF-only heads (F16), the dialer's own buffer
+       ending exactly at the head and buffers smaller than the prefetched bytes (F17), heads net/http
+       refuses and responses arriving in several reads (F22), chunks larger than either buffer.
+   (2) Any outcome: OnResponse receives a prefix of what the server sent (nothing invented or
+       reordered); (3) when net/http parsed the response, OnResponse receives what net/http consumed
+       (head and body as net/http delimits it: the code's definition of "the response" on refusal). *)
+Theorem C11_debug_dialer_response_and_leftover :
+  forall (parse_head : list byte -> option nat) (wcut : list byte -> list (list byte)),
+  (forall x, concat (wcut x) = x) ->
+  forall cfg url_host uri nonce B, 1 <= B ->
+  forall hreads chunks t,
+  (d_err (dialer_upgrade cfg url_host uri nonce B (mkReader [] chunks t)) = None ->
+   forall n, parse_head (fst (tee_fetch hreads [] chunks)) = Some n ->
+             head_end (fst (tee_fetch hreads [] chunks)) = Some n) ->
+  forall set_req,
+  let w := debug_dialer_full parse_head wcut set_req true cfg url_host uri nonce B hreads chunks t in
+  (d_err (dialer_upgrade cfg url_host uri nonce B (mkReader [] chunks t)) = None ->
+     exists h, head_end (concat chunks) = Some h
+       /\ fd_on_response w = Some (firstn h (concat chunks))
+       /\ fd_leftover w = skipn h (concat chunks)
+       /\ fd_leftover w = flat (d_reader (dialer_upgrade cfg url_host uri nonce B (mkReader [] chunks t))))
+  /\ (exists resp rest, fd_on_response w = Some resp /\ concat chunks = resp ++ rest)
+  /\ (forall n, parse_head (fst (tee_fetch hreads [] chunks)) = Some n ->
+                fd_on_response w = Some (firstn n (fst (tee_fetch hreads [] chunks))))
+  /\ fd_captured w = fst (tee_fetch hreads [] chunks).
+Proof. exact debug_dialer_full_response_and_leftover. Qed.
+Print Assumptions C11_debug_dialer_response_and_leftover.
+
+(* without OnResponse the wrapped conn reads the conn itself: buffer and conn are the plain dialer's *)
+Theorem C11_debug_dialer_no_response_callback :
+  forall (parse_head : list byte -> option nat) (wcut : list byte -> list (list byte))
+         cfg url_host uri nonce B hreads chunks t set_req,
+  let w := debug_dialer_full parse_head wcut set_req false cfg url_host uri nonce B hreads chunks t in
+  let d := dialer_upgrade cfg url_host uri nonce B (mkReader [] chunks t) in
+  fd_br w = (if d_returns_br d then Some (r_pending (d_reader d)) else None)
+  /\ fd_conn w = r_chunks (d_reader d)
+  /\ (d_err d = None -> fd_leftover w = flat (d_reader d)).
+Proof. exact debug_dialer_full_no_response_callback. Qed.
+Print Assumptions C11_debug_dialer_no_response_callback.
+
+(* wsutil.DebugUpgrader (after fix F24, d4d7004): result (error, Handshake, bytes written) = the plain
+   Upgrader's on the same conn, for every configuration, buffer size, chunking, read-ahead and answer
+   of net/http's ReadRequest, cutting of writes and callback setting; OnResponse receives exactly the
+   bytes written; OnRequest is called iff set.  No byte is invented or lost by the wrapper:
+   * net/http parsed the request: OnRequest receives exactly the bytes net/http read (a prefix of the
+     client's bytes); the client's bytes are those, then what the Upgrader read from the conn on its
+     own, then what the conn still delivers; when the captured bytes hold a complete head (an empty
+     line) the Upgrader does not read the conn again: every byte is reported or still unread.
+   * net/http refused: the wrapper keeps recording: OnRequest receives the captured bytes followed by
+     everything the Upgrader's bufio.Reader took from the conn, and every byte the client sent is
+     either in that argument or still unread on the conn.
+   * the Upgrader succeeds: the stream has a first empty line at offset h, and (net/http refused, or
+     the captured bytes hold a complete head) OnRequest's argument starts with the complete request
+     head: its first h bytes are the first h bytes of the stream.
+   (As with the plain Upgrader, bytes that arrive in the same reads as the head are read into a buffer
+   that is not handed to the caller; RFC 6455 4.1 forbids the client to send them before the
+   response.  They are reported to OnRequest.) *)
+Theorem C11_debug_upgrader_transparent :
+  forall (parse_head : list byte -> option nat) (wcut : list byte -> list (list byte)),
+  (forall x, concat (wcut x) = x) ->
+  forall stext cfg B, 1 <= B ->
+  forall hreads chunks t set_req set_resp,
+  let w := debug_upgrader_full parse_head wcut set_req set_resp stext cfg B hreads chunks t in
+  let u := upgrader stext cfg B (mkReader [] chunks t) in
+  let captured := fst (tee_fetch hreads [] chunks) in
+  fu_res w = u
+  /\ concat (fu_conn_out w) = u_out u
+  /\ fu_on_response w = (if set_resp then Some (u_out u) else None)
+  /\ (fu_on_request w = None <-> set_req = false)
+  /\ (set_req = false -> exists mid, concat chunks = mid ++ concat (fu_conn w))
+  /\ (set_req = true ->
+       (parse_head captured <> None ->
+          fu_on_request w = Some captured
+          /\ (exists mid, concat chunks = captured ++ mid ++ concat (fu_conn w))
+          /\ (head_end captured <> None -> concat chunks = captured ++ concat (fu_conn w)))
+       /\ (parse_head captured = None ->
+            exists taken, fu_on_request w = Some (captured ++ taken)
+                          /\ concat chunks = (captured ++ taken) ++ concat (fu_conn w))
+       /\ (u_err u = None ->
+            exists h, head_end (concat chunks) = Some h
+              /\ (parse_head captured = None \/ head_end captured <> None ->
+                  exists req, fu_on_request w = Some req /\ (h <= length req)%nat
+                              /\ firstn h req = firstn h (concat chunks)))).
+Proof. exact debug_upgrader_full_transparent. Qed.
+Print Assumptions C11_debug_upgrader_transparent.
+
+(* F24 repaired (replaces C11_debug_upgrader_request_truncated_refuted): when the upgrade succeeds and
+   net/http either refused the request or captured a complete head, OnRequest receives bytes that
+   start with the whole request head, and every byte of the client is in that argument or still
+   unread on the conn. *)
+Theorem C11_debug_upgrader_reports_whole_request :
+  forall (parse_head : list byte -> option nat) (wcut : list byte -> list (list byte)),
+  (forall x, concat (wcut x) = x) ->
+  forall stext cfg B, 1 <= B ->
+  forall hreads chunks t set_resp,
+  let w := debug_upgrader_full parse_head wcut true set_resp stext cfg B hreads chunks t in
+  let captured := fst (tee_fetch hreads [] chunks) in
+  u_err (upgrader stext cfg B (mkReader [] chunks t)) = None ->
+  parse_head captured = None \/ head_end captured <> None ->
+  exists h req, head_end (concat chunks) = Some h
+    /\ fu_on_request w = Some req
+    /\ (h <= length req)%nat /\ firstn h req = firstn h (concat chunks)
+    /\ concat chunks = req ++ concat (fu_conn w).
+Proof. exact debug_upgrader_full_reports_request. Qed.
+Print Assumptions C11_debug_upgrader_reports_whole_request.
+
+(* the witness of F24: a request that ws.Upgrader accepts and net/http refuses (version HTTP/1.10),
+   arriving in two reads of 40 and 113 bytes; net/http gives up after the first read.  The repaired
+   model reports all 153 bytes; the model of the code before d4d7004 reported the first 40. *)
+Example C11_debug_upgrader_F24_witness :
+  let req := bs "GET /ws HTTP/1.10" ++ crlf ++ bs "Host: example.com" ++ crlf
+             ++ bs "Upgrade: websocket" ++ crlf ++ bs "Connection: Upgrade" ++ crlf
+             ++ bs "Sec-WebSocket-Version: 13" ++ crlf
+             ++ bs "Sec-WebSocket-Key: dGhlIHNhbXBsZSBub25jZQ==" ++ crlf ++ crlf in
+  let chunks := [firstn 40 req; skipn 40 req] in
+  let w := debug_upgrader_full (fun _ => None) (fun x => [x]) true true (fun _ => []) (ucfg0 None) 4096 [4096] chunks TEof in
+  let w0 := debug_upgrader_full_old (fun x => [x]) true true (fun _ => []) (ucfg0 None) 4096 [4096] chunks TEof in
+  length req = 153%nat
+  /\ u_err (fu_res w) = None /\ fu_on_request w = Some req /\ fu_conn w = []
+  /\ u_err (fu_res w0) = None /\ fu_on_request w0 = Some (firstn 40 req).
+Proof. vm_compute. repeat split; reflexivity. Qed.
+
+(* non-vacuity of the dialer theorems.
+   (a) a realistic exchange: subprotocols chat, superchat; the response is the upgrader model's, one
+       text frame  81 01 78  behind it; the conn delivers 50 bytes, then the rest together with the
+       frame; net/http needs two reads (so it has prefetched the frame), answers with the end of the
+       head (the hypothesis of the theorem holds by construction: parse_head = head_end); the
+       dialer's own buffer is 16 bytes.  Same outcome as the plain dialer, OnRequest = the request,
+       OnResponse = the head, the returned buffer holds exactly the frame.
+   (b) LF-only head that net/http refuses (HTTP/1.10), delivered 7 bytes at a time through a 16-byte
+       buffer, net/http giving up after its first read, two frames behind the head (the second one
+       holding an empty line): OnResponse = the head up to its empty line, leftover = both frames. *)
+Example C11_debug_dialer_nonvacuous :
+  let ps := [bs "chat"; bs "superchat"] in
+  let nonce := bs "dGhlIHNhbXBsZSBub25jZQ==" in
+  let host := bs "server.example.com" in
+  let sel := Some (fun p => bytes_eqb p (bs "superchat")) in
+  let req := write_upgrade_request (dcfg0 ps) host (bs "/chat") nonce in
+  let u := upgrader (fun _ => []) (ucfg0 sel) 16 (mkReader [] [req] TEof) in
+  let frame := [129; 1; 120] in
+  let resp := u_out u ++ frame in
+  let chunks := [firstn 50 resp; skipn 50 resp] in
+  let w := debug_dialer_full head_end (fun x => [x]) true true (dcfg0 ps) host (bs "/chat") nonce 16
+             [4096; 4096] chunks TEof in
+  let lf := [10] in
+  let head2 := bs "HTTP/1.10 101 x" ++ lf ++ bs "Upgrade: websocket" ++ lf ++ bs "Connection: Upgrade" ++ lf
+               ++ bs "Sec-WebSocket-Accept: " ++ accept_of_key nonce ++ lf ++ lf in
+  let frames2 := [129; 2; 104; 105; 129; 2; 10; 10] in
+  let sevens := fix cut (n : nat) (l : list byte) := match n with O => [] | S n' =>
+                  match l with [] => [] | _ => firstn 7 l :: cut n' (skipn 7 l) end end in
+  let w2 := debug_dialer_full (fun _ => None) (fun x => [x]) true true (dcfg0 []) host (bs "/chat") nonce 16
+              [4096] (sevens 40%nat (head2 ++ frames2)) TEof in
+  (fd_err w = None /\ hs_protocol (fd_hs w) = bs "superchat"
+   /\ fd_on_request w = Some req /\ fd_on_response w = Some (u_out u)
+   /\ fd_captured w = resp /\ fd_br w = Some frame /\ fd_conn w = [] /\ fd_leftover w = frame)
+  /\ (fd_err w2 = None /\ fd_on_response w2 = Some head2 /\ fd_leftover w2 = frames2
+      /\ fd_captured w2 = firstn 7 head2).
+Proof. vm_compute. repeat split; reflexivity. Qed.
+
+(* non-vacuity, upgrader: the request of (a) delivered 100 bytes at a time with a masked frame behind
+   it in the last chunk; net/http reads until it has the head: OnRequest receives all bytes read
+   (request and the frame that came with its last bytes), OnResponse the 101, nothing is left on the
+   conn and nothing was read by the Upgrader on its own. *)
+Example C11_debug_upgrader_nonvacuous :
+  let ps := [bs "chat"; bs "superchat"] in
+  let nonce := bs "dGhlIHNhbXBsZSBub25jZQ==" in
+  let sel := Some (fun p => bytes_eqb p (bs "superchat")) in
+  let req := write_upgrade_request (dcfg0 ps) (bs "server.example.com") (bs "/chat") nonce in
+  let frame := [129; 129; 1; 2; 3; 4; 121] in
+  let all := req ++ frame in
+  let chunks := [firstn 100 all; firstn 100 (skipn 100 all); skipn 200 all] in
+  let w := debug_upgrader_full head_end (fun x => [x]) true true (fun _ => []) (ucfg0 sel) 4096
+             [4096; 3996; 3896] chunks TEof in
+  u_err (fu_res w) = None /\ hs_protocol (u_hs (fu_res w)) = bs "superchat"
+  /\ fu_on_request w = Some all /\ fu_on_response w = Some (u_out (fu_res w))
+  /\ fu_conn w = [] /\ head_end all = Some (length req).
+Proof. vm_compute. repeat split; reflexivity. Qed.
